@@ -786,7 +786,7 @@ static void run_line(char *line)
 		pending_errno = atoi(w[1]);
 	} else if (!strcmp(w[0], "FAILAT") && n == 2) {
 		fail_at = strcmp(w[1], "-") ? atol(w[1]) : -1;
-	} else if ((!strcmp(w[0], "X") || !strcmp(w[0], "XP")) && n == 3) {
+	} else if ((!strcmp(w[0], "X") || !strcmp(w[0], "XP")) && (n == 3 || n == 4)) {
 		int pos = 0, first = nschema, i;
 		cfg_opt_t *opts = build_opts(&pos, 0);
 		cfg_t *c = cfg_init(opts, atoi(w[2]));
@@ -794,6 +794,14 @@ static void run_line(char *line)
 		if (c)
 			cfg_set_error_function(c, errfunc);
 		CTX(1) = c;
+		if (n == 4) {
+			/* a second context from the very same declaration arrays */
+			cfg_t *c2 = cfg_init(opts, atoi(w[2]));
+
+			if (c2)
+				cfg_set_error_function(c2, errfunc);
+			CTX(3) = c2;
+		}
 		if (!strcmp(w[0], "XP")) {
 			/* the caller's declarations are gone from now on */
 			for (i = first; i < nschema; i++) {
